@@ -279,26 +279,27 @@ func c04RefDslRule(es []c04Dsl, q c04Req) c04Tri {
 	return res
 }
 
+// c04DslExprClass / c04DslRuleClass: classes for finding keys - the shape of the
+// rule, never its concrete expressions (one defect = a handful of keys).
 func c04DslExprClass(e c04Dsl) string {
 	switch e.Op {
 	case "raw":
 		return "raw:" + e.Var
-	case "eq", "ne", "prefix", "re", "eqdef":
-		v := e.Var
-		if i := strings.Index(v, ":"); i >= 0 {
-			v = v[:i]
-		}
-		return e.Op + ":" + v
+	case "true", "false":
+		return "constant"
+	case "eq", "ne", "prefix", "re":
+		return "comparison"
+	case "eqdef":
+		return "comparison with default value"
 	}
-	return e.Op
+	return "logical operator"
 }
 
 func c04DslRuleClass(r c04Rule) string {
-	var cs []string
-	for _, e := range r.Dsl {
-		cs = append(cs, c04DslExprClass(e))
+	if len(r.Dsl) == 1 {
+		return "dsl[" + c04DslExprClass(r.Dsl[0]) + "]"
 	}
-	return "dsl[" + strings.Join(cs, ",") + "]"
+	return fmt.Sprintf("dsl[%d expressions]", len(r.Dsl))
 }
 
 func c04DslUsesQuery(es []c04Dsl) bool {
@@ -402,7 +403,16 @@ func c04DslExprs(thorough bool) []c04Dsl {
 			}
 		}
 	}
-	return out
+	// each expression once (the generated shapes repeat some hand-written ones)
+	seen := map[string]bool{}
+	uniq := out[:0:0]
+	for _, e := range out {
+		if !seen[e.Text()] {
+			seen[e.Text()] = true
+			uniq = append(uniq, e)
+		}
+	}
+	return uniq
 }
 
 func c04DslRequests(withQuery bool) []c04Req {
@@ -561,14 +571,6 @@ func TestVerifC04DslExprs(t *testing.T) {
 	}
 	reqs, reqsNoQuery := c04DslRequests(true), c04DslRequests(false)
 	catchAll := c04Rule{Kind: "prefix", Pattern: "/"}
-	// every text of the alphabet must be a different expression
-	seen := map[string]bool{}
-	for _, e := range exprs {
-		if seen[e.Text()] {
-			t.Fatalf("C04 harness: duplicate expression in alphabet: %s", e.Text())
-		}
-		seen[e.Text()] = true
-	}
 	complete := vreport.Run(p,
 		func(yield func(c04RouteCase) bool) {
 			mk := func(es ...c04Dsl) c04RouteCase {
@@ -598,8 +600,8 @@ func TestVerifC04DslExprs(t *testing.T) {
 		},
 		func(p *vreport.Part, c c04RouteCase) {
 			rq := reqs
-			if es := c.Rules[0].Dsl; len(es) == 2 && !vreport.Thorough() && !c04DslUsesQuery(es) {
-				rq = reqsNoQuery // quick tier: pairs that do not read the query string are not probed with query strings
+			if es := c.Rules[0].Dsl; len(es) == 2 && !c04DslUsesQuery(es) {
+				rq = reqsNoQuery // pairs that do not read the query string are not probed with query strings
 			}
 			c04CheckRoutesX(p, c, rq, "")
 		})
@@ -608,7 +610,7 @@ func TestVerifC04DslExprs(t *testing.T) {
 		names = append(names, e.Text())
 	}
 	p.End(complete,
-		fmt.Sprintf("one dsl rule followed by a catch-all prefix rule; the rule's dsl_expressions = every expression, every ordered pair (with repetition) of the %d-expression alphabet and every ordered triple over a %d-expression sub-alphabet; alphabet [%s]; x %d requests (paths [/a /ab /b] x methods %v x Host [a.com b.com unset] x header h [absent 1 2] x query string [none x=1 y=2&x=2]; quick tier: two-expression rules that do not read the query string only without query string)", len(exprs), len(tri), strings.Join(names, " ; "), len(reqs), c04Methods),
+		fmt.Sprintf("one dsl rule followed by a catch-all prefix rule; the rule's dsl_expressions = every expression, every ordered pair (with repetition) of the %d-expression alphabet and every ordered triple over a %d-expression sub-alphabet; alphabet [%s]; x %d requests (paths [/a /ab /b] x methods %v x Host [a.com b.com unset] x header h [absent 1 2] x query string [none x=1 y=2&x=2]; two-expression rules that do not read the query string: only without query string)", len(exprs), len(tri), strings.Join(names, " ; "), len(reqs), c04Methods),
 		"cartesian product; a dsl rule holds iff all its expressions hold; an expression is evaluated by the harness's own evaluator under the plain and the CEL-error reading, decided where they agree; expressions that do not compile, name an unknown attribute, are not boolean or need the request info are enumerated, their verdict is unknown (either outcome admitted), but a lookup must not panic; MatchRoute = first rule that holds, MatchAllRoutes = exactly the rules that hold in order; distinct = (rule, reference verdicts); outcome = position selected / decided")
 }
 
